@@ -84,9 +84,9 @@ func executeCLIQuery(project, query, output string, stdin bool) (string, error) 
 
 	if stdin {
 		// read from stdin
+		in := bufio.NewReader(os.Stdin)
 		for {
 			fmt.Print("Path-Finder Query Console: \n>")
-			in := bufio.NewReader(os.Stdin)
 
 			input, err := in.ReadString('\n')
 			analytics.ReportEvent(analytics.QueryCommandStdin)
